@@ -119,7 +119,7 @@ class C13Monitor(X.Monitor):
         if has_metrics and score.num_ground_truth != total:
             ctx.violate("C13", "gt_counts_add", "scene counts %d ground truths, the frames hold %d" % (score.num_ground_truth, total), {}, index)
         # scene_equals_pool (detection part; the tracking part is C05's accumulator check run under C13's name)
-        policy = lane.config.label_params["matching_label_policy"].value
+        policy = V.plan_policy(ctx.plan["config"])   # as configured by the plan
         for m in score.maps:
             OS.check_map(ctx, lane.name, index, m, [fr.object_results for fr in frames], gt_counts, policy, "scene",
                          prop="C13", cp="scene_equals_pool:")
@@ -332,7 +332,7 @@ class C05Monitor(X.Monitor):
         gt_counts = {}
         for g in fr.frame_ground_truth.objects:
             gt_counts[V.label_of(g)] = gt_counts.get(V.label_of(g), 0) + 1
-        policy = lane.config.label_params["matching_label_policy"].value
+        policy = V.plan_policy(ctx.plan["config"])   # as configured by the plan
         OS.check_configured_thresholds(ctx, "C05", st.index, fr.metrics_score.tracking_scores, "frame", ctx.plan["config"], "clear")
         check_clear_scores(ctx, lane, st.index, fr.metrics_score.tracking_scores, [prev, fr.object_results], gt_counts, labels, policy, "frame")
 
@@ -346,7 +346,7 @@ class C05Monitor(X.Monitor):
         for fr in frames:
             for g in fr.frame_ground_truth.objects:
                 gt_counts[V.label_of(g)] = gt_counts.get(V.label_of(g), 0) + 1
-        policy = lane.config.label_params["matching_label_policy"].value
+        policy = V.plan_policy(ctx.plan["config"])   # as configured by the plan
         OS.check_configured_thresholds(ctx, "C05", index, score.tracking_scores, "scene", ctx.plan["config"], "clear")
         check_clear_scores(ctx, lane, index, score.tracking_scores, [[]] + [fr.object_results for fr in frames], gt_counts, labels, policy, "scene")
         self._perfect_tracker(ctx, lane, frames, score, index)
